@@ -176,6 +176,7 @@ func runC15(t *testing.T, sc pscenario, ch *sched.Chooser) (res sched.Result) {
 			e.Go(fmt.Sprintf("x%d-%s", ai, a.kind), func() {
 				sched.YieldUntil("at", func() bool { return elapsed() >= a.at })
 				before := len(st.Writes)
+				mine := map[int]bool{} // writes performed by THIS call (another API call may run concurrently)
 				var err error
 				switch a.kind {
 				case "state":
@@ -195,6 +196,7 @@ func runC15(t *testing.T, sc pscenario, ch *sched.Chooser) (res sched.Result) {
 						pi, po := pdescOf(w.In).Partitions[a.part], pdescOf(w.Out).Partitions[a.part]
 						if w.Writer == a.who && po.State == a.to && pi.State != a.to {
 							apiWrites[i] = true
+							mine[i] = true
 						}
 					}
 				case "stop":
@@ -203,7 +205,7 @@ func runC15(t *testing.T, sc pscenario, ch *sched.Chooser) (res sched.Result) {
 				if a.kind != "stop" {
 					wrote := false
 					for i := before; i < len(st.Writes); i++ {
-						if st.Writes[i].Writer == etag || apiWrites[i] {
+						if st.Writes[i].Writer == etag || mine[i] {
 							wrote = true
 						}
 					}
